@@ -259,11 +259,23 @@ def op_cin_not_clone(rng, spec, m):
             for bp, _i, it in _bp_items(spec["bp"]):
                 if it[0] == "ctor" and it[1] == cid2 and len(it) > 2:
                     it[2].pop("cloning", None)
+    variant = "infallible"
+    if spec["errors"] and rng.random() < 0.5:
+        # the Clone requirement must also be checked when the constructor returns a Result
+        for cid2, c in spec["ctors"].items():
+            if c["out"] == t and c["lc"] != "singleton":
+                c["fallible"] = rng.choice(spec["errors"])
+                variant = "fallible"
     # nobody may take it by value any more (that would need Clone for other reasons)
     for k in ("handlers", "mws", "fallbacks", "ctors"):
         for x in spec[k].values():
             x["ins"] = [[tt, ("ref" if tt == t and mo == "val" else mo)] for (tt, mo) in x.get("ins", [])]
-    return {"type": t}
+    # observers / error handlers must not depend on something fallible: drop the type from their inputs
+    if variant == "fallible":
+        for k in ("obs", "ehs"):
+            for x in spec[k].values():
+                x["ins"] = [i for i in x.get("ins", []) if i[0] != t]
+    return {"type": t, "variant": variant}
 
 
 def op_observer_needs_fallible(rng, spec, m):
@@ -319,14 +331,21 @@ def op_route_overlap(rng, spec, m):
 
 
 def op_path_param_not_in_template(rng, spec, m):
+    """A `PathParams<T>` field that is not in the route template; the extractor sits in the handler or in a middleware
+    that covers the route."""
     hs = [(hid, h) for hid, h in spec["handlers"].items() if hid in m.reg and not h.get("raw_params")]
     if not hs:
         return None
+    covering = sorted(set(x for (hid, _h) in hs for x in m.chain(hid)))
+    if covering and rng.random() < 0.5:
+        mid = rng.choice(covering)
+        spec["mws"][mid]["path_params"] = ["missing_field"]
+        return {"variant": "middleware:" + spec["mws"][mid]["kind"], "component": mid, "fields": ["missing_field"]}
     hid, h = rng.choice(hs)
     fields = list(h.get("path_params") or [])
     fields.append("missing_field")
     h["path_params"] = fields
-    return {"route": hid, "fields": fields}
+    return {"variant": "handler", "route": hid, "fields": fields}
 
 
 OPERATORS = {
